@@ -120,16 +120,23 @@ theorem classify_sub {t : Table} {keys : List String} {v : Name} (h : v ∈ clas
   obtain ⟨l, hl, rfl, _⟩ := mem_classify.mp h
   exact List.mem_map_of_mem (f := (·.name)) hl
 
+/-- generated obligation: classification searches with re.I and re.M, so the device assumption applies -/
+theorem classifies_prompts : classifiesPrompts = true := by decide
+
+theorem promptKey_def (t : Table) (m : Name) :
+    promptKey t m = match lookup t m with | some l => [l.pat] | none => [] := by
+  unfold promptKey; rw [classifies_prompts]; rfl
+
 theorem self_mem_classify {t : Table} {m : Name} {lm : Level} (hl : lookup t m = some lm) :
     m ∈ classify t (promptKey t m) := by
   obtain ⟨h1, h2⟩ := lookup_some hl
-  exact mem_classify.mpr ⟨lm, h1, h2, by simp [promptKey, hl]⟩
+  exact mem_classify.mpr ⟨lm, h1, h2, by simp [promptKey_def, hl]⟩
 
 theorem classify_unamb {t : Table} {m : Name} {lm : Level} (hl : lookup t m = some lm) (hu : Unamb t m) {v : Name}
     (hv : v ∈ classify t (promptKey t m)) : v = m := by
   obtain ⟨l, h1, rfl, h3⟩ := mem_classify.mp hv
   obtain ⟨g1, g2⟩ := lookup_some hl
-  simp [promptKey, hl] at h3
+  simp [promptKey_def, hl] at h3
   exact hu lm g1 l h1 g2 h3
 
 /-! ### the channel primitives against the cooperative device -/
@@ -187,7 +194,7 @@ theorem escalateAuth_coop {cfg : MCfg} {t : Table} {c : Cfg} {ch : Chan MDev} {a
     (hm : tableMove t cfg.extra a lx.esc = some (lx.name, true)) :
     ∃ ch', escalateAuth c (modeDev cfg) t ch lx la = (ch', .ok) ∧
       At ch' lx.name (log ++ authLog c.secondary cfg.password a lx.name lx.esc) r := by
-  have hkey : promptKey t lx.name = [lx.pat] := by simp [promptKey, hlx]
+  have hkey : promptKey t lx.name = [lx.pat] := by simp [promptKey_def, hlx]
   cases hpw : cfg.password with
   | none =>
     obtain ⟨ch1, e1, h1⟩ := io_move h hco.noBlock hm (Or.inr hpw)
